@@ -282,23 +282,28 @@ func newSvcDiscoveryClient(scope string, streamMaker svcDiscoveryStreamMaker) *s
 
 func (c *svcDiscoveryClient) Subscribe(svcName string) {
 	c.Lock()
-	defer c.Unlock()
 	_, ok := c.subscribed[svcName]
 	if ok {
+		c.Unlock()
 		return
 	}
 	c.subscribed[svcName] = struct{}{}
+	c.Unlock()
+	// Enqueue without holding the lock: while no stream is up nothing drains the
+	// queue, and resubscribe, which flushes it, needs the lock.
 	c.subCh <- svcName
 }
 
 func (c *svcDiscoveryClient) Unsubscribe(svcName string) {
 	c.Lock()
-	defer c.Unlock()
 	_, ok := c.subscribed[svcName]
 	if !ok {
+		c.Unlock()
 		return
 	}
 	delete(c.subscribed, svcName)
+	c.Unlock()
+	// See Subscribe.
 	c.unsubCh <- svcName
 }
 
